@@ -60,7 +60,9 @@ AuthOK      == Sent => (Len(cur.auth) <= 1 /\ Range(cur.auth) \subseteq {"login"
 \* cookies of one host are not sent to another
 CookieOK    == Sent => Range(cur.cookies) \subseteq {cur.exp.host}
 \* https -> http never carries the referrer
-RefererOK   == Sent => ~(cur.referer = "https" /\ cur.exp.scheme = "http")
+\* ... and never carries the user name / password of the referring URL to another host (refcred: "none" | "same" |
+\* "foreign" - whether the Referer value has user-info, and whether it goes to the host it belongs to)
+RefererOK   == Sent => (~(cur.referer = "https" /\ cur.exp.scheme = "http") /\ cur.refcred # "foreign")
 \* request line + fields + blank line, nothing smuggled in
 WellFormed  == Sent => (cur.wf /\ cur.method = "GET" /\ cur.nreferer <= 1)
 \* redirect bound
